@@ -56,6 +56,9 @@ def configs(tier):
         out.append({'fn': fn, 'rows': 2, 'centre': 'peak', 'index': 'shifted'})
     for k in range(1, (3 if q else 6) + 1):
         out.append({'fn': 'flatten1', 'k': k})
+    # labels need not be unique (conditions that repeat: rest / task / rest)
+    out.append({'fn': 'flatten1', 'k': 3, 'repeat_labels': True})
+    out.append({'fn': 'flatten2', 'a': 2, 'b': 2, 'repeat_labels': True})
     for a, b in ([(1, 1), (1, 2), (2, 1), (2, 2)] + ([] if q else [(2, 3), (3, 2), (1, 3), (3, 1), (3, 3), (2, 4), (4, 2)])):
         out.append({'fn': 'flatten2', 'a': a, 'b': b})
     out.append({'fn': 'flatten_mismatch'})
@@ -251,7 +254,7 @@ def run(ctx, cfg):
             vals = [ctx.real('v%d_%d' % (k, i)) for i in range(r)]
             tables.append(pd.DataFrame({'feat': list(vals), 'tid': [k] * r}))
             sizes.append((k, vals))
-            labels_flat.append('L%d' % k)
+            labels_flat.append('L%d' % (k % 2 if cfg.get('repeat_labels') else k))
         if len(shape) == 1:
             dfs, labels = tables, list(labels_flat)
         else:
@@ -269,7 +272,7 @@ def run(ctx, cfg):
         for k, vals in sizes:
             want_feat += vals
             want_tid += [k] * len(vals)
-            want_lab += ['L%d' % k] * len(vals)
+            want_lab += [labels_flat[k]] * len(vals)
         if not ctx.prove(len(feat) == len(want_feat) and [int(v) for v in tid] == want_tid and list(lab) == want_lab,
                          'tables concatenated in order, each row carrying its table label'):
             return
